@@ -31,8 +31,13 @@ Proof.
   apply andb_true_iff in H. destruct H as [H Hlen].
   apply andb_true_iff in H. destruct H as [H Hw].
   apply andb_true_iff in H. destruct H as [H Hr].
-  rewrite forallb_forall in H. split; [|split].
+  apply andb_true_iff in H. destruct H as [H Hfl].
+  apply andb_true_iff in H. destruct H as [Hci Hco].
+  apply Nat.ltb_lt in Hci. apply Nat.ltb_lt in Hco.
+  rewrite forallb_forall in Hfl. split; [|split; [|split; [|split]]].
   - intros x Hin. apply flow_ok_within. auto.
+  - lia.
+  - lia.
   - apply Nat.leb_le. assumption.
   - rewrite <- ldef_counted_is_needed. apply Nat.leb_le. assumption.
 Qed.
@@ -50,17 +55,19 @@ Proof.
   - intros H f Hin. specialize (H f Hin).
     apply andb_true_iff in H. destruct H as [H Hloc].
     apply andb_true_iff in H. destruct H as [H Hlen].
-    rewrite forallb_forall in H. split; [|split].
+    apply andb_true_iff in H. destruct H as [H Hco].
+    apply andb_true_iff in H. destruct H as [H Hci].
+    rewrite forallb_forall in H. split; [|split; [|split; [|split]]].
     + intros x Hx. specialize (H x Hx). unfold flow_withinb in H. apply andb_true_iff in H.
       destruct H as [H1 H2]. apply Nat.leb_le in H1. apply Nat.leb_le in H2. split; assumption.
     + apply Nat.leb_le; assumption.
     + apply Nat.leb_le; assumption.
-  - intros H f Hin. destruct (H f Hin) as (Hf & Hl & Hc).
-    apply andb_true_iff. split; [apply andb_true_iff; split|].
-    + apply forallb_forall. intros x Hx. destruct (Hf x Hx) as [H1 H2]. unfold flow_withinb.
-      apply andb_true_iff. split; apply Nat.leb_le; assumption.
     + apply Nat.leb_le; assumption.
     + apply Nat.leb_le; assumption.
+  - intros H f Hin. destruct (H f Hin) as (Hf & Hci & Hco & Hl & Hc).
+    repeat (apply andb_true_iff; split); try (apply Nat.leb_le; assumption).
+    apply forallb_forall. intros x Hx. destruct (Hf x Hx) as [H1 H2]. unfold flow_withinb.
+    apply andb_true_iff. split; apply Nat.leb_le; assumption.
 Qed.
 
 (* a program exceeding a runtime limit is rejected *)
